@@ -196,10 +196,14 @@ def gen_threshold(rng, measure, prof):
         v = rng.choice([0, 1, 1, 2, 2, 3, 4])
         return float(v) if rng.random() < 0.15 else v
     x = rng.random()
-    if x < 0.7:
+    if x < 0.6:
         return float(decimal_threshold(rng))
-    if x < 0.9:
+    if x < 0.78:
         return float(frac_threshold(rng))
+    if x < 0.9:
+        # an attainable fraction written with 4 decimals (rounded up or down)
+        q = rng.choice([3, 6, 7, 9, 11, 12, 13])
+        return round(rng.randint(1, q) / float(q), 4)
     return rng.choice([1.0, 0.5, 0.0001, 0.9999, 0.3333, 0.6667])
 
 
@@ -1036,9 +1040,15 @@ def gen_candset_spec(g, l, r, c_l, c_r, size_hint=None):
         spec['index'] = rng.sample(range(max(1000, 2 * n)), n)
     else:
         spec['index'] = ['c%d' % rng.randint(0, 5) for _ in range(n)]
-    if rng.random() < 0.3:
+    x = rng.random()
+    if x < 0.25:
         spec['extra'] = {'note': [rng.choice(['p', 'q', None])
                                   for _ in range(n)]}
+    elif x < 0.5:
+        # an all-numeric candidate set with a float column (what a filter
+        # with a score column returns)
+        spec['extra'] = {'_sim_score': [rng.choice([0.5, 1.0, 0.25])
+                                        for _ in range(n)]}
     for side, m, col in (('l', l, 'l_dtype'), ('r', r, 'r_dtype')):
         if m['keytype'] == 'int':
             spec[col] = 'int64'
